@@ -15,13 +15,16 @@ Record variant := mkVariant {
   v_zero_blocks : bool;       (* ExecuteDappRemove sends zero-amount bond records (the send fails, nobody is refunded) *)
   v_create_unchecked : bool;  (* CreateDappProposal does not compare the creation bond with MaxDappBond *)
   v_convert_stale : bool;     (* ConvertDappPoolTx swaps into the target record read BEFORE the redemption *)
-  v_create_negative : bool    (* CreateDappProposal accepts a negative bond from a holder of the bond-free permission *)
+  v_create_negative : bool;   (* CreateDappProposal accepts a negative bond from a holder of the bond-free permission *)
+  v_upsert_raw : bool         (* the upsert-dApp proposal stores the proposal's record wholesale: TotalBond, Status, CreationTime, ... *)
 }.
-Definition as_is : variant := mkVariant true true true true true.       (* the tree before any repair *)
-Definition repaired : variant := mkVariant false false false false false.
+Definition as_is : variant := mkVariant true true true true true true.       (* the tree before any repair *)
+Definition repaired : variant := mkVariant false false false false false false.
 
 (* network properties used by the module *)
-Record config := mkConfig { c_min_raw : Z; c_max_raw : Z; c_duration : Z }.
+Record config := mkConfig { c_min_raw : Z; c_max_raw : Z; c_duration : Z;
+  c_liq_period : Z; c_liq_thr_raw : Z (* DappLiquidationPeriod / Threshold *); c_ft_fee : Z (* MintingFtFee *); c_vbond : Z (* DappVerifierBond, Dec *) }.
+Definition liq_thr (c : config) : Z := as_int64 (c_liq_thr_raw c) * 1000000.
 (* sdk.NewInt(int64(properties.MinDappBond)).Mul(sdk.NewInt(1000_000)) *)
 Definition min_thr (c : config) : Z := as_int64 (c_min_raw c) * 1000000.
 Definition max_thr (c : config) : Z := as_int64 (c_max_raw c) * 1000000.
@@ -59,14 +62,21 @@ Definition burn (den : string) (amt : Z) (l : ledger) : outcome ledger :=
        Ok (set_bal SUPPLY den (bal SUPPLY den l1 - amt) l1).
 
 (* ---------------------------------------------------------------- dApps and user bonds *)
+(* PremintTime, Pool.Drip, LiquidationStart, EnableBondVerifiers *)
+Record dextra := mkX { x_ptime : Z; x_drip : Z; x_liq : Z; x_bv : bool }.
 Record dapp := mkDapp {
-  d_name : string; d_total : Z; d_status : Z (* 0 Bootstrap, 3 Halted *); d_ctime : Z;
+  d_name : string; d_total : Z; d_status : Z (* 0 Bootstrap, 1 Active, 2 Paused, 3 Halted *); d_ctime : Z;
   d_lp : string (* "lp/"+Denom *); d_lp_ok : bool (* sdk.ValidateDenom(d_lp) = nil *);
-  d_ratio : Z (* Pool.Ratio, Dec *); d_premint : Z; d_postmint : Z; d_fee : Z (* PoolFee, Dec *); d_team : string }.
+  d_ratio : Z (* Pool.Ratio, Dec *); d_premint : Z; d_postmint : Z; d_fee : Z (* PoolFee, Dec *); d_team : string;
+  d_x : dextra }.
 Definition with_total (d : dapp) (t : Z) : dapp :=
-  mkDapp (d_name d) t (d_status d) (d_ctime d) (d_lp d) (d_lp_ok d) (d_ratio d) (d_premint d) (d_postmint d) (d_fee d) (d_team d).
+  mkDapp (d_name d) t (d_status d) (d_ctime d) (d_lp d) (d_lp_ok d) (d_ratio d) (d_premint d) (d_postmint d) (d_fee d) (d_team d) (d_x d).
 Definition with_status (d : dapp) (s : Z) : dapp :=
-  mkDapp (d_name d) (d_total d) s (d_ctime d) (d_lp d) (d_lp_ok d) (d_ratio d) (d_premint d) (d_postmint d) (d_fee d) (d_team d).
+  mkDapp (d_name d) (d_total d) s (d_ctime d) (d_lp d) (d_lp_ok d) (d_ratio d) (d_premint d) (d_postmint d) (d_fee d) (d_team d) (d_x d).
+Definition with_x (d : dapp) (x : dextra) : dapp :=
+  mkDapp (d_name d) (d_total d) (d_status d) (d_ctime d) (d_lp d) (d_lp_ok d) (d_ratio d) (d_premint d) (d_postmint d) (d_fee d) (d_team d) x.
+Definition with_liq (d : dapp) (t : Z) : dapp := with_x d (mkX (x_ptime (d_x d)) (x_drip (d_x d)) t (x_bv (d_x d))).
+Definition with_ptime (d : dapp) (t : Z) : dapp := with_x d (mkX t (x_drip (d_x d)) (x_liq (d_x d)) (x_bv (d_x d))).
 
 Definition bonds_t := list (string * string * Z).          (* dApp name, user, amount *)
 Record state := mkState { now : Z; dapps : list dapp; bonds : bonds_t; led : ledger }.
@@ -124,7 +134,7 @@ Definition launch (v : variant) (d : dapp) (st : state) : outcome state :=
   do l3 <- (if 0 <? d_premint d
             then match send MOD (d_team d) (d_lp d) (d_premint d) l2 with Ok l => Ok l | _ => Panic "premint" end
             else Ok l2);
-  Ok (mkState (now st) (set_dapp (with_status d 3) (dapps st)) bs l3).
+  Ok (mkState (now st) (set_dapp (with_ptime (with_status d 3) (now st)) (dapps st)) bs l3).
 
 Definition finish (v : variant) (c : config) (d : dapp) (st : state) : outcome state :=
   if d_total d <? min_thr c
@@ -132,16 +142,32 @@ Definition finish (v : variant) (c : config) (d : dapp) (st : state) : outcome s
   else launch v d st.
 Definition expired (c : config) (t : Z) (d : dapp) : bool :=
   ((d_status d =? 0) && (wrap64 (d_ctime d + c_duration c) <=? t))%bool.
+(* EndBlocker, the part for an ACTIVE dApp (copy d read at the start of the block; no session exists in the
+   modelled histories): the "postmint" payout -- it sends Issuance.Premint, every block, once
+   PremintTime+Drip has passed -- and the halt when LiquidationStart+DappLiquidationPeriod has passed *)
+Definition active_step (c : config) (d : dapp) (st : state) : outcome state :=
+  if negb (d_status d =? 1) then Ok st else
+  do s1 <- (if ((wrap64 (x_ptime (d_x d) + x_drip (d_x d)) <? now st) && (0 <? d_postmint d))%bool
+            then if d_premint d <? 0 then Panic "negative coin amount"
+                 else match send MOD (d_team d) (d_lp d) (d_premint d) (led st) with
+                      | Ok l => Ok (mkState (now st) (set_dapp d (dapps st)) (bonds st) l)
+                      | _ => Panic "postmint" end
+            else Ok st);
+  if wrap64 (x_liq (d_x d) + c_liq_period c) <? now st
+  then Ok (mkState (now s1) (set_dapp (with_status d 3) (dapps s1)) (bonds s1) (led s1))
+  else Ok s1.
 (* EndBlocker: the dApp list is read once, the loop works on those copies *)
 Fixpoint end_loop (v : variant) (c : config) (ds : list dapp) (st : state) : outcome state :=
   match ds with
   | [] => Ok st
-  | d :: r => do s <- (if expired c (now st) d then finish v c d st else Ok st); end_loop v c r s
+  | d :: r => do s <- (if expired c (now st) d then finish v c d st else Ok st);
+              do s2 <- active_step c d s; end_loop v c r s2
   end.
 Definition end_block (v : variant) (c : config) (st : state) : outcome state := end_loop v c (dapps st) st.
 
 (* ---------------------------------------------------------------- messages *)
-Record dparams := mkParams { p_lp : string; p_lp_ok : bool; p_ratio : Z; p_premint : Z; p_postmint : Z; p_fee : Z; p_team : string }.
+Record dparams := mkParams { p_lp : string; p_lp_ok : bool; p_ratio : Z; p_premint : Z; p_postmint : Z; p_fee : Z; p_team : string;
+  p_drip : Z; p_bv : bool }.
 
 Definition create (v : variant) (c : config) (st : state) (u : string) (priv foreign : bool) (n : string) (amt : Z) (p : dparams)
   : outcome state :=
@@ -153,7 +179,8 @@ Definition create (v : variant) (c : config) (st : state) (u : string) (priv for
   if (negb (v_prefix v) && String.eqb n "")%bool then Err "empty dapp name" else
   do l <- (if 0 <? amt then send u MOD UKEX amt (led st) else Ok (led st));
   if (match find_dapp n (dapps st) with Some _ => negb (String.eqb n "") | None => false end) then Err "dapp already exists" else
-  let d := mkDapp n amt 0 (now st) (p_lp p) (p_lp_ok p) (p_ratio p) (p_premint p) (p_postmint p) (p_fee p) (p_team p) in
+  let d := mkDapp n amt 0 (now st) (p_lp p) (p_lp_ok p) (p_ratio p) (p_premint p) (p_postmint p) (p_fee p) (p_team p)
+                  (mkX 0 (p_drip p) 0 (p_bv p)) in
   Ok (mkState (now st) (set_dapp d (dapps st)) (set_bond n u amt (bonds st)) l).
 
 (* GetDapp(name).Name == "": a dApp stored under the empty name is "not found" *)
@@ -189,7 +216,7 @@ Definition reclaim (st : state) (u n : string) (foreign : bool) (amt : Z) : outc
 Definition fee_of (x feeDec : Z) : outcome Z := do m <- dmul (dec_of_int x) feeDec; Ok (round_int m).
 
 (* RedeemDappPoolTx(ctx, addr, dapp, poolFee, lpTokenAmount): [d] is the caller's copy of the record *)
-Definition redeem_k (d : dapp) (u den : string) (x fee : Z) (st : state) : outcome (state * Z) :=
+Definition redeem_k (c : config) (d : dapp) (u den : string) (x fee : Z) (st : state) : outcome (state * Z) :=
   if negb (String.eqb den (d_lp d)) then Err "invalid lp token" else
   let S := bal SUPPLY (d_lp d) (led st) in
   let T := d_total d in
@@ -201,9 +228,11 @@ Definition redeem_k (d : dapp) (u den : string) (x fee : Z) (st : state) : outco
   do l2 <- send u MOD den x l1;
   if sb - f <? 0 then Panic "negative coin amount" else
   do l3 <- send MOD u UKEX (sb - f) l2;
-  Ok (mkState (now st) (set_dapp (with_total d T') (dapps st)) (bonds st) l3, sb - f).
+  (* the liquidation countdown starts when the pool bond falls below the threshold *)
+  let d' := if ((x_liq (d_x d) =? 0) && (T' <? liq_thr c))%bool then with_liq (with_total d T') (now st) else with_total d T' in
+  Ok (mkState (now st) (set_dapp d' (dapps st)) (bonds st) l3, sb - f).
 
-Definition swap_k (d : dapp) (u : string) (foreign : bool) (b fee : Z) (st : state) : outcome (state * Z) :=
+Definition swap_k (c : config) (d : dapp) (u : string) (foreign : bool) (b fee : Z) (st : state) : outcome (state * Z) :=
   if foreign then Err "invalid lp token" else
   let S := bal SUPPLY (d_lp d) (led st) in
   let T := d_total d in
@@ -215,18 +244,19 @@ Definition swap_k (d : dapp) (u : string) (foreign : bool) (b fee : Z) (st : sta
   do l2 <- send u MOD UKEX b l1;
   if out - f <? 0 then Panic "negative coin amount" else
   do l3 <- send MOD u (d_lp d) (out - f) l2;
-  Ok (mkState (now st) (set_dapp (with_total d (T + b)) (dapps st)) (bonds st) l3, out - f).
+  let d' := if (negb (x_liq (d_x d) =? 0) && (liq_thr c <=? T + b))%bool then with_liq (with_total d (T + b)) 0 else with_total d (T + b) in
+  Ok (mkState (now st) (set_dapp d' (dapps st)) (bonds st) l3, out - f).
 
 (* PoolFee.Quo(sdk.NewDec(2)) *)
 Definition half_fee (fee : Z) : outcome Z := dquo fee (dec_of_int 2).
 (* ConvertDappPoolTx: both records are read before the redemption; the stale variant does not re-read the second *)
-Definition convert_k (v : variant) (d1 d2 : dapp) (u den : string) (x : Z) (st : state) : outcome (state * Z) :=
+Definition convert_k (v : variant) (c : config) (d1 d2 : dapp) (u den : string) (x : Z) (st : state) : outcome (state * Z) :=
   do f1 <- half_fee (d_fee d1);
-  do r <- redeem_k d1 u den x f1 st;
+  do r <- redeem_k c d1 u den x f1 st;
   let d2' := if v_convert_stale v then d2
              else match find_dapp (d_name d2) (dapps (fst r)) with Some d => d | None => d2 end in
   do f2 <- half_fee (d_fee d2');
-  swap_k d2' u false (snd r) f2 (fst r).
+  swap_k c d2' u false (snd r) f2 (fst r).
 
 (* ---------------------------------------------------------------- operations *)
 Inductive op : Type :=
@@ -237,10 +267,71 @@ Inductive op : Type :=
 | OLpMsg (kind : Z) (u n n2 den : string) (amt : Z)      (* MsgSwap / MsgRedeem / MsgConvert DappPoolTx *)
 | KSwap (u n : string) (foreign : bool) (amt fee : Z)    (* keeper-level calls, record read from the store first *)
 | KRedeem (u n den : string) (amt fee : Z)
-| KConvert (u n n2 den : string) (amt : Z).
+| KConvert (u n n2 den : string) (amt : Z)
+| OSetCfg (c' : config)                                  (* network properties changed between blocks (threaded by the caller) *)
+| OBurnTx (u den : string) (amt : Z) (registered : bool) (* MsgMintBurnTx: through the module account *)
+| OMintFt (u : string) (fresh : bool)                    (* MsgMintCreateFtTx: the fee goes through the module account *)
+| OJoinVerifier (u interx n : string)                    (* MsgJoinDappVerifierWithBond *)
+| OUpsert (n : string) (total status ctime : Z) (p : dparams) (ptime liq : Z)   (* passed ProposalUpsertDapp *)
+| KForce (n : string) (status ptime liq : Z).            (* keeper SetDapp: status / PremintTime / LiquidationStart *)
+
+(* ---------------------------------------------------------------- other layer2 messages through the module account *)
+Definition burn_tx (st : state) (u den : string) (amt : Z) (registered : bool) : outcome state :=
+  if negb registered then Err "token not registered" else
+  if amt <? 0 then Panic "negative coin amount" else
+  do l1 <- send u MOD den amt (led st);
+  do l2 <- burn den amt l1;
+  Ok (mkState (now st) (dapps st) (bonds st) l2).
+Definition mint_ft (c : config) (st : state) (u : string) (fresh : bool) : outcome state :=
+  let fee := as_int64 (c_ft_fee c) in
+  if fee <? 0 then Panic "negative coin amount" else
+  do l1 <- send u MOD UKEX fee (led st);
+  do l2 <- burn UKEX fee l1;
+  (* `info := tk.GetTokenInfo(ctx, denom); if info.Denom != ""`: for a new denomination info is nil -- the
+     message panics and can never succeed *)
+  if negb fresh then Err "token already registered" else Panic "nil token info".
+(* the operator records are kept as pseudo balances: account "#vf/"+dApp, denom = operator *)
+Definition VF (n : string) : string := ("#vf/" ++ n)%string.
+Definition join_verifier (c : config) (st : state) (u interx n : string) : outcome state :=
+  match find_dapp n (dapps st) with
+  | None => Err "dapp does not allow bond verifiers"
+  | Some d =>
+    if negb (x_bv (d_x d)) then Err "dapp does not allow bond verifiers" else
+    if negb (bal (VF n) u (led st) =? 0) then Err "already a dapp verifier" else
+    do dep <- lp_deposit d;
+    do m <- dmul (dec_of_int (dep + d_postmint d + d_premint d)) (c_vbond c);
+    let a := round_int m in
+    if (a <? 0) || negb (d_lp_ok d) then Panic "invalid coin" else
+    do l1 <- (if 0 <? a then send interx MOD (d_lp d) a (led st) else Ok (led st));
+    Ok (mkState (now st) (dapps st) (bonds st) (set_bal (VF n) u 1 l1))
+  end.
+(* ApplyUpsertDappProposal *)
+Definition upsert (v : variant) (st : state) (n : string) (total status ctime : Z) (p : dparams) (ptime liq : Z) : outcome state :=
+  match get_dapp n st with
+  | None => Err "dapp does not exist"
+  | Some d =>
+    if (x_bv (d_x d) && negb (p_bv p))%bool then Err "can not disable bonded verifiers" else
+    let d' := if v_upsert_raw v
+              then mkDapp n total status ctime (p_lp p) (p_lp_ok p) (p_ratio p) (p_premint p) (p_postmint p) (p_fee p) (p_team p)
+                          (mkX ptime (p_drip p) liq (p_bv p))
+              else mkDapp n (d_total d) (d_status d) (d_ctime d) (p_lp p) (p_lp_ok p) (p_ratio p) (p_premint p) (p_postmint p) (d_fee d) (d_team d)
+                          (mkX (x_ptime (d_x d)) (p_drip p) (x_liq (d_x d)) (p_bv p)) in
+    Ok (mkState (now st) (set_dapp d' (dapps st)) (bonds st) (led st))
+  end.
+Definition force (st : state) (n : string) (status ptime liq : Z) : outcome state :=
+  match get_dapp n st with
+  | None => Err "no dapp"
+  | Some d => Ok (mkState (now st) (set_dapp (with_x (with_status d status) (mkX ptime (x_drip (d_x d)) liq (x_bv (d_x d)))) (dapps st)) (bonds st) (led st))
+  end.
 
 Definition step (v : variant) (c : config) (st : state) (o : op) : outcome state :=
   match o with
+  | OSetCfg _ => Ok st
+  | OBurnTx u den amt registered => burn_tx st u den amt registered
+  | OMintFt u fresh => mint_ft c st u fresh
+  | OJoinVerifier u interx n => join_verifier c st u interx n
+  | OUpsert n total status ctime p ptime liq => upsert v st n total status ctime p ptime liq
+  | KForce n status ptime liq => force st n status ptime liq
   | OCreate u priv foreign n amt p => create v c st u priv foreign n amt p
   | OBond u n foreign amt => bond c st u n foreign amt
   | OReclaim u n foreign amt => reclaim st u n foreign amt
@@ -249,12 +340,12 @@ Definition step (v : variant) (c : config) (st : state) (o : op) : outcome state
      the empty record leads to ErrInvalidLpToken, ErrOperationExceedsSlippage or a nil-Int panic *)
   | OLpMsg _ _ _ _ _ _ => Err "dapp does not exist"
   | KSwap u n foreign amt fee =>
-      match get_dapp n st with None => Err "no dapp" | Some d => do r <- swap_k d u foreign amt fee st; Ok (fst r) end
+      match get_dapp n st with None => Err "no dapp" | Some d => do r <- swap_k c d u foreign amt fee st; Ok (fst r) end
   | KRedeem u n den amt fee =>
-      match get_dapp n st with None => Err "no dapp" | Some d => do r <- redeem_k d u den amt fee st; Ok (fst r) end
+      match get_dapp n st with None => Err "no dapp" | Some d => do r <- redeem_k c d u den amt fee st; Ok (fst r) end
   | KConvert u n n2 den amt =>
       match get_dapp n st, get_dapp n2 st with
-      | Some d1, Some d2 => do r <- convert_k v d1 d2 u den amt st; Ok (fst r)
+      | Some d1, Some d2 => do r <- convert_k v c d1 d2 u den amt st; Ok (fst r)
       | _, _ => Err "no dapp" end
   end.
 (* transaction semantics: a failed message (error or panic) leaves no trace *)
@@ -265,4 +356,9 @@ Definition run (v : variant) (c : config) (ops : list op) (st : state) : state :
 Definition is_user_op (o : op) : bool :=
   match o with OCreate _ _ _ _ _ _ | OBond _ _ _ _ | OReclaim _ _ _ _ => true | _ => false end.
 Definition is_msg_op (o : op) : bool :=
-  match o with OCreate _ _ _ _ _ _ | OBond _ _ _ _ | OReclaim _ _ _ _ | OTick _ | OLpMsg _ _ _ _ _ _ => true | _ => false end.
+  match o with
+  | OCreate _ _ _ _ _ _ | OBond _ _ _ _ | OReclaim _ _ _ _ | OTick _ | OLpMsg _ _ _ _ _ _
+  | OSetCfg _ | OBurnTx _ _ _ _ | OMintFt _ _ | OJoinVerifier _ _ _ | OUpsert _ _ _ _ _ _ _ => true
+  | _ => false end.
+(* the configuration in force after an operation *)
+Definition cfg_after (c : config) (o : op) : config := match o with OSetCfg c' => c' | _ => c end.
